@@ -435,20 +435,27 @@ def index_items(text):
     containers = []   # (start_off, end_off, name)
     for m in re.finditer(r'(?m)^[ \t]*(?:pub(?:\([a-z]+\))? )?mod (\w+) \{', text):
         o = m.end() - 1
-        containers.append((m.start(), match_brace(text, o), m.group(1), 'mod'))
+        containers.append((m.start(), match_brace(text, o), m.group(1), 'mod', None))
     for m in re.finditer(r"(?m)^[ \t]*(?:pub )?(?:trait \w+[^{;\n]*|impl\b[^{;\n]*)\{", text):
         o = m.end() - 1
         try:
             c = match_brace(text, o)
         except Exception:
             continue
-        containers.append((m.start(), c, block_type_name(m.group(0).strip()), 'type'))
+        tm = re.match(r"\s*(?:pub )?impl(?:<[^>]*>)?\s+([\w:]+)(?:<[^{]*>)?\s+for\s+", m.group(0))
+        containers.append((m.start(), c, block_type_name(m.group(0).strip()), 'type', tm.group(1).split('::')[-1] if tm else None))
     fns = []
+    fn_trait = {}
     for m in re.finditer(r'(?m)^[ \t]*(?:#\[[^\]]*\]\s*)*(?:pub(?:\([a-z]+\))? )?(?:(?:open|closed|uninterp|broadcast|const|unsafe) )*(?:(?:spec|proof|exec) )?fn (\w+)', text):
         off = m.start()
         names = [c for c in containers if c[0] < off <= c[1]]
         names.sort(key=lambda c: c[0])
         path = [c[2] for c in names if c[3] == 'mod'] + [c[2] for c in names if c[3] == 'type' and c[2]]
-        fns.append((text.count('\n', 0, m.end()) + 1, '::'.join(path + [m.group(1)])))
+        fid = '::'.join(path + [m.group(1)])
+        fns.append((text.count('\n', 0, m.end()) + 1, fid))
+        tr = [c[4] for c in names if c[3] == 'type' and len(c) > 4 and c[4]]
+        if tr:
+            fn_trait[fid] = tr[-1]
     fns.sort()
+    index_items.last_fn_trait = fn_trait
     return fns
